@@ -31,9 +31,9 @@ ID = 'C17'
 HASHSEED_IS_VIOLATION = True
 
 TIERS = {
-    'quick': {'runs': 2400, 'replica_runs': 480, 'hash_seeds': [1, 4242, 99], 'timeout_s': 480, 'shrink_s': 60},
+    'quick': {'runs': 2400, 'replica_runs': 480, 'hash_seeds': [1, 4242, 99], 'timeout_s': 1500, 'shrink_s': 60},
     'thorough': {'runs': 60000, 'replica_runs': 8000, 'hash_seeds': [1, 2, 3, 7, 99, 4242, 31337, 2**31],
-                 'timeout_s': 3400, 'shrink_s': 180},
+                 'timeout_s': 12000, 'shrink_s': 180},
 }
 
 RULE = ('Each run builds a world of 3-6 shared objects per kind from seeded recipes (graphs decoded with markers, '
